@@ -1,3 +1,4 @@
+import WmModel.Props.C05Serial
 import WmModel.Props.C05Order
 import WmModel.Props.C05Prod
 import WmModel.Props.C05Live
@@ -28,3 +29,8 @@ import WmModel.Props.C05
 #print axioms Wm.GcProd.prod_sender_done_waits_for_msub
 #print axioms Wm.GcSub.ended_sender_deliveries_first
 #print axioms Wm.GcSub.deliveries_in_exit_order
+
+#print axioms Wm.GcReg.dispatcher_waited_for
+#print axioms Wm.GcProd.blocking_senders_serialised
+#print axioms Wm.GcProd.blocking_deliveries_in_publish_order
+#print axioms Wm.GcProd.serial_witness
